@@ -18,7 +18,7 @@ fn main() {
             "--file" => {
                 let kv = args.next().unwrap();
                 let (k, v) = kv.split_once('=').unwrap();
-                opts.files.push((k.to_string(), v.replace("\\n", "\n")));
+                opts.files.push((k.to_string(), v.replace("<NL>", "\n")));
             }
             "--term" => opts.terminal_lines.push(args.next().unwrap()),
             "--checkpoint" => {
@@ -34,7 +34,7 @@ fn main() {
     }
     let mut vm = new_vm(&opts);
     for (i, p) in progs.iter().enumerate() {
-        let p = p.replace("\\n", "\n");
+        let p = p.replace("<NL>", "\n");
         let r = vcore::catch(|| run(&mut vm, &format!("p{i}.tex"), &p));
         match r {
             Ok(o) => println!("outcome: {o:?}"),
